@@ -555,29 +555,105 @@ impl SyslogProcessor {
 }
 
 // =====================================================================================================
-// PMY-STOP — logs without a year: SyslogProcessor::process_missing_year re-reads the file backwards assigning years and
-// may stop early at --dt-after.  Messages it does not reach keep a filler year and are later taken as before the window,
-// so C03 needs: the pass stops early only at a message STRICTLY before the lower bound (a message exactly at the bound,
-// and every message before it with the same instant, is still visited).  The statements between the start-of-file test
-// and the step to the preceding message, cut from the loop body.
+// PMY-BODY — logs without a year: SyslogProcessor::process_missing_year re-reads the file backwards assigning years; a message
+// whose datetime is later than that of the message FOLLOWING it in the file by more than the threshold marks a year rollover:
+// the year is lowered by one, the message is dropped from the store and read again with the new year (C01: the instants
+// the merge sorts by; C03: the instants the window compares).  The pass may stop early at --dt-after; messages it does not
+// reach keep a filler year and are later taken as before the window, so C03 needs: the pass stops early only at a message
+// STRICTLY before the lower bound.  The whole loop body after the search, cut from the function; the rollover decision
+// holds for EVERY message found, the one at offset 0 included, before the loop may stop.
+// ---- assumed: chrono::Duration by its length (same unit as `instant`); `DateTime - DateTime` is the difference of instants;
+// the lazy_static threshold is an opaque constant
+#[verifier::external_body]
+pub struct Duration { _p: u8 }
+pub uninterp spec fn dur(d: Duration) -> int;
+pub uninterp spec fn jump_threshold() -> int;
+impl PartialEq for Duration {
+    #[verifier::external_body]
+    fn eq(&self, other: &Self) -> (r: bool) { self._p == other._p }
+}
+impl PartialEqSpecImpl for Duration {
+    open spec fn obeys_eq_spec() -> bool { true }
+    open spec fn eq_spec(&self, other: &Self) -> bool { dur(*self) == dur(*other) }
+}
+impl PartialOrd for Duration {
+    #[verifier::external_body]
+    fn partial_cmp(&self, other: &Self) -> (r: Option<Ordering>) { self._p.partial_cmp(&other._p) }
+}
+impl PartialOrdSpecImpl for Duration {
+    open spec fn obeys_partial_cmp_spec() -> bool { true }
+    open spec fn partial_cmp_spec(&self, other: &Self) -> Option<Ordering> {
+        if dur(*self) < dur(*other) { Some(Ordering::Less) }
+        else if dur(*self) == dur(*other) { Some(Ordering::Equal) }
+        else { Some(Ordering::Greater) }
+    }
+}
+#[verifier::external_body]
+pub fn verif_dt_sub(a: &DateTimeL, b: &DateTimeL) -> (r: Duration) ensures dur(r) == instant(*a) - instant(*b) { unimplemented!() }  // stand-in for `*a - *b`
+#[verifier::external_body]
+pub fn verif_backwards_jump() -> (r: Duration) ensures dur(r) == jump_threshold() { unimplemented!() }  // stand-in for `*BACKWARDS_TIME_JUMP_MEANS_NEW_YEAR`
+pub fn verif_dt_gt(a: &DateTimeL, b: &DateTimeL) -> (r: bool) ensures r == (instant(*a) > instant(*b)) { *a > *b }  // `&DateTimeL > &DateTimeL`
+// stand-in for `self.syslinereader.remove_sysline(fo)`: records the one removal
+pub fn verif_remove_sysline(removed: &mut Option<FileOffset>, fo: FileOffset)
+    requires *old(removed) is None ensures *final(removed) == Some(fo)
+{ *removed = Some(fo); }
+
+pub enum PmyStep { Retry, Next, Stop }
+pub struct PmyOut { pub step: PmyStep, pub fo_prev: FileOffset, pub year_opt: Option<Year>, pub prev: Option<SyslineP>, pub removed: Option<FileOffset> }
+pub type Year = i32;
+
+pub open spec fn pmy_rollover(cur: &SyslineP, prev: Option<SyslineP>) -> bool {
+    prev is Some && instant(cur.dt_spec()) > instant(prev.unwrap().dt_spec())
+        && instant(cur.dt_spec()) - instant(prev.unwrap().dt_spec()) > jump_threshold()
+}
+
 #[verifier::exec_allows_no_decreases_clause]
-pub fn pmy_stop(syslinep: &SyslineP, filter_dt_after_opt: &DateTimeLOpt, fo_prev0: FileOffset, charsz_fo: FileOffset) -> (r: (bool, FileOffset))
-    requires charsz_fo >= 1
+pub fn pmy_body(syslinep: SyslineP, prev0: Option<SyslineP>, filter_dt_after_opt: &DateTimeLOpt, fo_prev0: FileOffset, charsz_fo: FileOffset, year0: Option<Year>) -> (r: PmyOut)
+    requires charsz_fo >= 1, year0 is Some, year0.unwrap() > i32::MIN
     ensures
-        // r.0: the pass goes on to the preceding message
-        !r.0 ==> fo_prev0 < charsz_fo || (filter_dt_after_opt is Some && instant(syslinep.dt_spec()) < instant(filter_dt_after_opt.unwrap())),
-        r.0 ==> r.1 == fo_prev0 - charsz_fo,
+        // the rollover decision is taken for every message found, wherever it starts
+        pmy_rollover(&syslinep, prev0) ==> r.step is Retry && r.year_opt == Some((year0.unwrap() - 1) as i32)
+            && r.removed == Some(syslinep.beg_spec() as u64) && r.fo_prev == fo_prev0 && r.prev == prev0,
+        !pmy_rollover(&syslinep, prev0) ==> !(r.step is Retry) && r.removed is None && r.year_opt == year0,
+        // the pass goes on to the preceding message
+        r.step is Next ==> r.fo_prev as int == syslinep.beg_spec() - charsz_fo && r.prev == Some(syslinep),
+        // it stops only at the start of the file, strictly before the lower bound, or when it cannot move back
+        r.step is Stop ==> syslinep.beg_spec() < charsz_fo as int
+            || (filter_dt_after_opt is Some && instant(syslinep.dt_spec()) < instant(filter_dt_after_opt.unwrap()))
+            || syslinep.beg_spec() - charsz_fo >= fo_prev0 as int,
 {
     let mut fo_prev: FileOffset = fo_prev0;
+    let mut year_opt: Option<Year> = year0;
+    let mut syslinep_prev_opt: Option<SyslineP> = prev0;
+    let mut removed: Option<FileOffset> = None;
+    let mut first: bool = true;
     loop
-        invariant_except_break fo_prev == fo_prev0, charsz_fo >= 1,
-        ensures fo_prev0 < charsz_fo || (filter_dt_after_opt is Some && instant(syslinep.dt_spec()) < instant(filter_dt_after_opt.unwrap())),
+        invariant_except_break
+            charsz_fo >= 1,
+            first ==> fo_prev == fo_prev0 && year_opt == year0 && syslinep_prev_opt == prev0 && removed is None,
+            !first ==> pmy_rollover(&syslinep, prev0) && fo_prev == fo_prev0 && year_opt == Some((year0.unwrap() - 1) as i32)
+                && syslinep_prev_opt == prev0 && removed == Some(syslinep.beg_spec() as u64),
+            year0 is Some, year0.unwrap() > i32::MIN,
+        ensures
+            !pmy_rollover(&syslinep, prev0), removed is None, year_opt == year0,
+            syslinep.beg_spec() < charsz_fo as int
+                || (filter_dt_after_opt is Some && instant(syslinep.dt_spec()) < instant(filter_dt_after_opt.unwrap()))
+                || syslinep.beg_spec() - charsz_fo >= fo_prev0 as int,
     {
-//@cut slice path=src/readers/syslogprocessor.rs impl=SyslogProcessor fn=process_missing_year anchor="if fo_prev < charsz_fo {" take=range end_anchor="fo_prev -= charsz_fo;" label=PMY-STOP
+        if !first {
+            // reached by the body's `continue`
+            return PmyOut { step: PmyStep::Retry, fo_prev, year_opt, prev: syslinep_prev_opt, removed };
+        }
+        first = false;
+//@cut slice path=src/readers/syslogprocessor.rs impl=SyslogProcessor fn=process_missing_year anchor="let fo_prev_prev: FileOffset = fo_prev;" take=range end_anchor="syslinep_prev_opt = Some(syslinep.clone());" label=PMY-BODY
+//@replace "*(*syslinep).dt() - *(*syslinep_prev).dt()" "verif_dt_sub((*syslinep).dt(), (*syslinep_prev).dt())"
+//@replace "(*syslinep).dt() > (*syslinep_prev).dt()" "verif_dt_gt((*syslinep).dt(), (*syslinep_prev).dt())"
+//@replace "*BACKWARDS_TIME_JUMP_MEANS_NEW_YEAR" "verif_backwards_jump()"
+//@replace "self.syslinereader .remove_sysline(fo_prev)" "verif_remove_sysline(&mut removed, fo_prev)" ws=1
 //@end
-        return (true, fo_prev);
+        return PmyOut { step: PmyStep::Next, fo_prev, year_opt, prev: syslinep_prev_opt, removed };
     }
-    (false, fo_prev)
+    PmyOut { step: PmyStep::Stop, fo_prev, year_opt, prev: None, removed }
 }
 
 // PMY-YEAR — logs without a year: the year given to the file's last message is the calendar year of the file's modification time
@@ -612,7 +688,6 @@ impl DateTimeL {
     #[verifier::external_body]
     pub fn year(&self) -> (r: i32) ensures r as int == local_year(*self) { unimplemented!() }
 }
-pub type Year = i32;
 pub fn pmy_year(dt_mtime: DateTimeL) -> (r: Year)
     ensures r as int == local_year(dt_mtime)
 {
